@@ -505,6 +505,12 @@ func (fr *Frame) mergeVals(hint string, vs []Val, cs []Term, pos token.Pos) Val 
 	for i := len(ts) - 2; i >= 0; i-- {
 		res = ite(cs[i], ts[i], res)
 	}
+	if h, _ := sortParts(sortName); h == "Array" || sortName == "CbLog" || sortName == "EvLog" {
+		// state components stay atomic symbols (usable in quantifier patterns)
+		c := fr.ex.fresh("m_"+hint, sortName)
+		fr.ex.emit("(assert (= %s %s))", c.S, res.S)
+		return c
+	}
 	return fr.ex.define("m_"+hint, res)
 }
 
